@@ -394,6 +394,20 @@ func init() {
 		// trusted; what is decided is the arche code around the two calls.
 		"encoding/json.Marshal": func(st *State, f *Frame, c *ssa.Call, a []Value) {
 			i, ok := a[0].(Iface)
+			if ok && i.T != nil {
+				// a json.Marshaler in the method set of the dynamic type is what encoding/json calls
+				if fn := st.run.P.lookupMethodByName(i.T, "MarshalJSON"); fn != nil && len(fn.Blocks) > 0 {
+					st.pushFrame(fn, []Value{i.V}, nil)
+					return
+				}
+				if _, isStruct := i.T.Underlying().(*types.Struct); isStruct {
+					// a struct without Marshaler: an object (fields are not modelled)
+					b := st.newBlock(2, types.Typ[types.Uint8], 2, BHeap)
+					st.blocks[b].Name = "json object"
+					ret(st, f, Tuple{Slice{P: Ptr{Blk: b}, Len: 2, Cap: 2}, Iface{}})
+					return
+				}
+			}
 			var arr *types.Array
 			if ok && i.T != nil {
 				arr, _ = i.T.Underlying().(*types.Array)
@@ -414,6 +428,20 @@ func init() {
 		"encoding/json.Unmarshal": func(st *State, f *Frame, c *ssa.Call, a []Value) {
 			data := a[0].(Slice)
 			i, ok := a[1].(Iface)
+			if ok && i.T != nil {
+				if fn := st.run.P.lookupMethodByName(i.T, "UnmarshalJSON"); fn != nil && len(fn.Blocks) > 0 {
+					st.pushFrame(fn, []Value{i.V, data}, nil)
+					return
+				}
+			}
+			if blk := st.block(data.P.Blk); blk != nil && blk.Name == "json object" {
+				if pt, isP := i.T.Underlying().(*types.Pointer); isP {
+					if _, isArr := pt.Elem().Underlying().(*types.Array); isArr {
+						ret(st, f, Iface{T: types.Universe.Lookup("error").Type(), V: Str("json: cannot unmarshal object into Go value of array type")})
+						return
+					}
+				}
+			}
 			var arr *types.Array
 			var dst Ptr
 			if ok && i.T != nil {
